@@ -4,8 +4,9 @@ Run-time contract on normalize_expression_sig_v1:
   (2) permuting / re-associating the operands of + and * chains (at any depth) never changes the signature;
   (3) swapping the operands of a non-commutative operator, changing a constant, a variable or a function changes it
       (whenever the two expressions differ in value on some probed assignment).
-Bound: expressions with <= 3 operators over {t, u, 1, 2, 3} and + - * // % ** unary-, abs/min/max."""
-import itertools, json, sys, random, logging
+Bound: expressions with <= 3 operators over {t, u, 1, 2, 3} and + - * // % ** unary-, abs/min/max, plus every comparison operator
+(< <= > >= == !=) between small operands: bare, as the test of an if-else, under + and *, and in a nested if-else."""
+import itertools, json, re, sys, random, logging
 logging.disable(logging.CRITICAL)
 from semantiva.metadata.semantic_id import normalize_expression_sig_v1
 
@@ -60,6 +61,20 @@ if thorough:
     exprs = gen(2) + [f"({a} {op} {b})" for op in BIN for a in rng.sample(gen(2), 150) for b in ATOMS]
 else:
     exprs = exprs[:: max(1, len(exprs) // 2500)]
+# comparisons and conditional expressions (part of the sweep expression language): every comparison operator between small operands,
+# bare, as the test of an if-else, and nested under + / *
+CMP = ["<", "<=", ">", ">=", "==", "!="]
+_small = gen(1)[:: 7] if not thorough else gen(1)[:: 3]
+cmp_exprs = []
+for a, b in itertools.product(ATOMS[:3] + _small[:6], ATOMS[:4]):
+    if a == b:
+        continue
+    for c in CMP:
+        cmp_exprs.append(f"({a} {c} {b})")
+        cmp_exprs.append(f"(t if {a} {c} {b} else u)")
+        cmp_exprs.append(f"(({a} {c} {b}) * 2 + u)")
+        cmp_exprs.append(f"(1 if ({a} {c} {b}) else (2 if ({b} {c} {a}) else 3))")
+exprs = exprs + list(dict.fromkeys(cmp_exprs))
 failures, evaluations, samples = [], 0, []
 groups = {}
 for e in exprs:
@@ -104,6 +119,8 @@ def ac_variants(e):
             return f"(-{rebuild(n.operand)})"
         if isinstance(n, ast.Call):
             return f"{n.func.id}({', '.join(rebuild(a) for a in n.args)})"
+        if isinstance(n, (ast.Compare, ast.IfExp)):
+            return f"({ast.unparse(n)})"
         return ast.unparse(n)
     return rebuild(tree)
 
@@ -125,13 +142,20 @@ for e in rng.sample(exprs, 300 if not thorough else 1500):
     muts = []
     for op in ("-", "//", "%", "**"):
         if f" {op} " in e:
-            import re
             m = re.match(r"^\((.+) " + re.escape(op) + r" (.+)\)$", e)
             if m and m.group(1).count("(") == m.group(1).count(")"):
                 muts.append(f"({m.group(2)} {op} {m.group(1)})")
     muts.append(e.replace("2", "3", 1) if "2" in e else e.replace("1", "2", 1))
     muts.append(e.replace("t", "u", 1) if "t" in e else e)
     muts.append(e.replace("min(", "max(", 1) if "min(" in e else e.replace("abs(", "-(", 1))
+    for c in CMP:
+        if f" {c} " in e:
+            muts += [e.replace(f" {c} ", f" {c2} ", 1) for c2 in CMP if c2 != c]
+            break
+    if " if " in e:
+        m2 = re.match(r"^\((\w+) if (.+) else (\w+)\)$", e)
+        if m2:
+            muts.append(f"({m2.group(3)} if {m2.group(2)} else {m2.group(1)})")
     for m_ in muts:
         if m_ == e:
             continue
@@ -141,7 +165,7 @@ for e in rng.sample(exprs, 300 if not thorough else 1500):
                 failures.append({"class": "meaning-changing-mutation-keeps-signature", "a": e, "b": m_})
         except SyntaxError:
             pass
-print(json.dumps({"bound": "expressions with <= 2 nested binary operators over {t,u,1,2,3} and + - * // % ** unary- abs min max (thorough: + one more level, sampled); 12 integer assignments",
+print(json.dumps({"bound": "expressions with <= 2 nested binary operators over {t,u,1,2,3} and + - * // % ** unary- abs min max (thorough: + one more level, sampled), six comparison operators bare / as if-else test / under + * / nested if-else; 12 integer assignments",
                   "evaluations": evaluations, "distinct_nontrivial": nontrivial + len(chains),
                   "rule": "all enumerated expressions grouped by signature (non-trivial = group with > 1 member); AC variants of chains; single-point mutations",
                   "failures": failures[:20], "samples": samples}, default=str))
